@@ -757,6 +757,13 @@ class Extractor:
         while m['k'] == 'DeclRefExpr' and m['decl'].get('dk') == 'local' and m['decl'].get('tc') == 'p' and hops < 3 and local_init(f, m['decl']['id']) is not None:
             m = f.nodes[f.strip(local_init(f, m['decl']['id']), 'all')]
             hops += 1
+        if m['k'] == 'ConditionalOperator' and all(f.nodes[f.strip(m[x], 'all')]['k'] == 'UnaryOperator' and f.nodes[f.strip(m[x], 'all')].get('op') == '&' for x in ('lhs', 'rhs') if x in m) and 'lhs' in m and 'rhs' in m:
+            # cond ? &A : &B  -- one object or another is emitted: keep both with the condition
+            a_ = f.nodes[f.strip(f.nodes[f.strip(m['lhs'], 'all')]['ch'][0], 'noop')]
+            b_ = f.nodes[f.strip(f.nodes[f.strip(m['rhs'], 'all')]['ch'][0], 'noop')]
+            cnd = substitute(R.render(m['cond']), subst)
+            it['src_cond'] = [(cnd, substitute(R.render(a_['id']), subst)), ('!' + cnd, substitute(R.render(b_['id']), subst))]
+            m = f.nodes[f.strip(m['lhs'], 'all')]
         if m['k'] == 'UnaryOperator' and m['op'] == '&':
             obj = f.nodes[f.strip(m['ch'][0], 'noop')]
             it['srck'] = 'object'
